@@ -787,6 +787,10 @@ class Engine:
         idx = self.ev(node.slice, fr, path)
         if isinstance(base, (SymSeq, MapList)) and fr.module is not None and fr.module is getattr(self, "spec_module", None):
             return base.getter(zterm(to_arith(idx)))      # specification context: indexing is total
+        if isinstance(base, SStr) and fr.module is not None and fr.module is getattr(self, "spec_module", None):
+            t = base.term()
+            i = zterm(to_arith(idx))
+            return SStr([Atom(z3.SubString(t, z3.simplify(z3.If(i < 0, i + z3.Length(t), i)), 1), "opq", {"key": f"at{self.fresh_id()}"})])
         return self.index_(base, idx, path)
 
     def index_(self, base, idx, path):
@@ -828,7 +832,16 @@ class Engine:
                 raise Limitation("symbolic index into a pair")
             return base.items[idx]
         if isinstance(base, SStr):
-            raise Limitation("index into a symbolic string")
+            # s[i]: the one-character string at position i (IndexError outside 0 <= i < len, after python's wrap-around)
+            t = base.term()
+            n = z3.Length(t)
+            i = zterm(to_arith(idx))
+            ii = z3.simplify(z3.If(i < 0, i + n, i))
+            ok = z3.And(ii >= 0, ii < n)
+            if not path.implied(ok):
+                if path.branch(z3.Not(ok), "str-index"):
+                    raise RaiseExc("IndexError", implicit=True, info="string index out of range")
+            return SStr([Atom(z3.SubString(t, ii, 1), "opq", {"key": f"at{self.fresh_id()}"})])
         raise RaiseExc("TypeError", implicit=True, info=f"subscript of {kind_of(base)}")
 
     def slice(self, base, lo, hi, path):
@@ -1557,6 +1570,15 @@ class Engine:
         raise Limitation(f"method {name} of {kind_of(recv)}")
 
     def str_method(self, recv, name, args, kwargs, fr, path):
+        if name == "join" and isinstance(recv, str) and len(args) == 1 and isinstance(args[0], (tuple, list)):
+            parts = []
+            for i, x in enumerate(args[0]):
+                if not is_strv(x):
+                    raise RaiseExc("TypeError", implicit=True, info=f"join(): item {i} is {kind_of(x)}")
+                if i and recv:
+                    parts.append(recv)
+                parts.append(x)
+            return mkstr(*parts) if parts else ""
         if isinstance(recv, str) and all(isinstance(a, (str, int, tuple)) and not is_sym(a) for a in args):
             return getattr(recv, name)(*args)
         if name == "startswith" and isinstance(args[0], str):
